@@ -6,8 +6,13 @@ package main
 import (
 	"fmt"
 	"os"
+	"os/exec"
+	"path/filepath"
+	"regexp"
 	"sort"
 	"strings"
+	"sync"
+	"time"
 
 	"verifharness/aspgen"
 	"verifharness/lib"
@@ -31,10 +36,11 @@ type item struct {
 	pyIdx   int
 	verdict string
 	files   []aspgen.File
-	fresh   *freshProbe // stream "fresh"
-	sortp   *sortProbe  // stream "sortkey"
+	fresh   *freshProbe    // stream "fresh"
+	sortp   *sortProbe     // stream "sortkey"
 	used    map[string]int // stream "pure2": the constructs of the enlarged fragment the program uses
-	refused bool        // the evaluator model refuses part of the program (dict.copy, sorted(key=)): a refusal is no disagreement
+	must    bool           // stream "pure3": the reference run pure2_run has to succeed on this program (P2Must)
+	refused bool           // the evaluator model refuses part of the program (dict.copy, sorted(key=)): a refusal is no disagreement
 }
 
 func hasBigInt(p aspgen.Prog) bool {
@@ -228,7 +234,11 @@ func main() {
 			"and a stream aimed at the ENLARGED pure fragment of Model/C16_Pure2.v (def with positional / keyword / scalar-default arguments, recursion, calls as statements, " +
 			"comprehensions with and without filter over lists and range(), for over range() and over enumerate / zip with two names, len str bool any all reversed sorted min max, " +
 			"dict literals with ascending - sometimes not - keys, index, in, get keys values items, join split startswith endswith upper lower): every single-file program is ALSO a " +
-			"P2Pure case (Go verdict on in_pure2_subset against Coq's; whenever pure2_run succeeds the real interpreter ran without error, agreed with python3 and printed the reference globals). " +
+			"P2Pure case (Go verdict on in_pure2_subset against Coq's; whenever pure2_run succeeds the real interpreter ran without error, agreed with python3 and printed the reference globals); " +
+			"third deepening: the pure2 stream also generates enumerate / zip / items() as values, str % scalar (%s %d %%, with verb/argument mismatches), slices of lists and strings " +
+			"(bounds negative, beyond the ends, lo > hi; ASCII strings only - a slice of a string with multi-byte runes is the template witness of string-slice-by-bytes), unpacking assignment (sometimes of the wrong length), dict | dict (merged keys ascending or not), " +
+			"sorted(l, reverse=...); four FIXED programs (stream pure3: the third-deepening part of the non-vacuity example of Props/C16.v, and the boundary cases of slices, of the " +
+			"lists of fresh lists, of % / | / reverse=) are P2Must cases: the reference run has to succeed on them inside Coq and the real runs have to print its globals; is_ok (pure2_run FUEL p) is evaluated by coqc for every program of the fragment's shape and counted (hist pure2_run*, the denominator of the agreement theorem). " +
 			"distinct = distinct program texts; non-trivial = a chain of >= 2 operators of different precedence, or a list/dict/function/loop")
 
 		var items []*item
@@ -271,6 +281,10 @@ func main() {
 		// range (Len() was negative: makeslice panicked) and over a range whose step does not divide the span (Len() was short)
 		for i, rp := range RangeLenRegressions() {
 			add(&item{name: fmt.Sprintf("rangelen:%d", i), stream: "rangelen", build: rp})
+		}
+		// fixed programs of the third deepening (enumerate zip items, % formatting, slices, unpacking, dict |, sorted(reverse=)): P2Must
+		for i, p3 := range Pure3Regressions() {
+			add(&item{name: fmt.Sprintf("pure3:%d", i), stream: "pure3", build: p3, must: true})
 		}
 		nFresh, nSort, nSortBig := c.Scale(120, 5000), c.Scale(80, 4000), c.Scale(16, 800)
 		for i := 0; i < nFresh; i++ {
@@ -452,8 +466,8 @@ func main() {
 				c.Fail("unexplained-asp-python-difference", "raw program: asp and CPython differ", map[string]any{"src": it.src, "asp": it.asp.Final, "python": it.py})
 				continue
 			}
-			if strings.Contains(fmt.Sprint(it.asp.Final), "%!(") || strings.Contains(fmt.Sprint(it.asp.Final), "(MISSING)") {
-				// fmt.Sprintf reports a verb/argument mismatch INSIDE the result string ("%!(EXTRA ...)", "%!d(...)") instead of failing
+			if strings.Contains(fmt.Sprint(it.asp.Final), "%!") || strings.Contains(fmt.Sprint(it.asp.Final), "(MISSING)") {
+				// fmt.Sprintf reports a verb/argument mismatch INSIDE the result string ("%!(EXTRA ...)", "%!d(string=x)", "%!s(MISSING)") instead of failing
 				c.Fail("percent-format-mismatch-no-error", "str % value with a verb/argument mismatch yields Go's %!(...) text where CPython raises TypeError or ignores the value ("+firstLine(lastLine(it.src))+")",
 					map[string]any{"src": it.src, "asp": it.asp.Final, "python": it.py})
 				continue
@@ -523,13 +537,14 @@ func main() {
 		}
 
 		// ---- correspondence cases
+		var refItems []*item // the programs of the enlarged fragment's SHAPE: pure2_run is evaluated on them below
 		for _, it := range items {
 			if it.build == nil {
 				c.Eval(map[string]any{"src": it.src}, it.src, false)
 				continue
 			}
 			maxOps, classes := chainStats(append(append(aspgen.Prog{}, it.defs...), it.build...))
-			nontrivial := maxOps >= 2 || it.stream == "program" || it.stream == "defs" || it.stream == "pure" || it.stream == "pure2" || it.stream == "rangelen" || it.stream == "fresh" || it.stream == "sortkey"
+			nontrivial := maxOps >= 2 || it.stream == "program" || it.stream == "defs" || it.stream == "pure" || it.stream == "pure2" || it.stream == "pure3" || it.stream == "rangelen" || it.stream == "fresh" || it.stream == "sortkey"
 			c.HistN("max_chain_ops", maxOps)
 			for _, cl := range classes {
 				c.Hist("chain_class", cl)
@@ -603,7 +618,12 @@ func main() {
 				flag2 := inPure2Subset(it.build)
 				c.Case(lib.App("P2Pure", lib.Bool(flag2), aspgen.CoqProg(it.build), lib.Bool(aspOK), lib.Bool(agree), globals),
 					map[string]any{"name": it.name + ":pure2", "src": it.src, "in_pure2_subset": flag2, "asp_ok": aspOK, "agree": agree}, "pure2:"+it.pysrc, flag2 && nontrivial)
+				if it.must {
+					c.Case(lib.App("P2Must", aspgen.CoqProg(it.build), lib.Bool(aspOK), lib.Bool(agree), globals),
+						map[string]any{"name": it.name + ":must", "src": it.src, "asp_ok": aspOK, "agree": agree}, "must:"+it.pysrc, true)
+				}
 				if flag2 {
+					refItems = append(refItems, it)
 					c.Hist("pure2_subset", "in:"+it.verdict)
 					if !flag {
 						c.Hist("pure2_subset_beyond_pure", it.stream+":"+it.verdict)
@@ -631,7 +651,124 @@ func main() {
 					map[string]any{"name": it.name + ":py", "src": it.src, "python": it.py}, "py:"+it.pysrc, false)
 			}
 		}
+
+		// ---- the denominator of the agreement claim: on how many programs of this run does the reference run succeed?
+		// pure2_run is a Coq function: it is evaluated here by coqc (vm_compute) on the same ASTs the P2Pure cases carry. The
+		// P2Pure check then demands, for exactly these programs, that asp ran, agreed with python3 and printed the reference globals.
+		okFlags, err := pure2RunOK(c.Out, refItems)
+		if err != nil {
+			c.Note("pure2_run = Ok count NOT available (%v): the P2Pure cases are checked all the same", err)
+		} else {
+			nOK := 0
+			for k, it := range refItems {
+				res := "refused"
+				if okFlags[k] {
+					res = "ok"
+					nOK++
+				}
+				c.Hist("pure2_run", res)
+				c.Hist("pure2_run_by_stream", it.stream+":"+res)
+				for u := range it.used {
+					c.Hist("pure2_run_by_construct", u+":"+res)
+				}
+				if okFlags[k] && it.verdict != "agree" {
+					// (the P2Pure case of this program fails as well: this line only names the program in the evidence)
+					c.Note("pure2_run = Ok but real asp / python3 do not agree (%s): %s", it.verdict, firstLine(it.src))
+				}
+			}
+			c.Note("pure2_run = Ok on %d of the %d programs of this run that have the shape of the enlarged fragment (in_pure2_subset; %d programs in all): "+
+				"the theorem pure2_run_agrees speaks about these %d, and each of them is a P2Pure case on which real asp and python3 must agree and print the reference globals",
+				nOK, len(refItems), len(items), nOK)
+		}
 	})
+}
+
+var boolList = regexp.MustCompile(`true|false`)
+
+// pure2RunOK evaluates is_ok (pure2_run FUEL p) inside Coq for every program, in parallel shards.
+func pure2RunOK(out string, its []*item) ([]bool, error) {
+	verif := os.Getenv("VERIF_DIR")
+	if verif == "" {
+		verif = "/verif"
+	}
+	theories := filepath.Join(verif, "coq", "theories")
+	const shard = 125
+	n := (len(its) + shard - 1) / shard
+	res := make([]bool, len(its))
+	errs := make([]error, n)
+	var wg sync.WaitGroup
+	sem := make(chan struct{}, 8)
+	for k := 0; k < n; k++ {
+		wg.Add(1)
+		go func(k int) {
+			defer wg.Done()
+			sem <- struct{}{}
+			defer func() { <-sem }()
+			lo, hi := k*shard, (k+1)*shard
+			if hi > len(its) {
+				hi = len(its)
+			}
+			var b strings.Builder
+			b.WriteString("From PlzV Require Import Base.Harness Model.C16_Syntax Model.C16_Eval Model.C16 Model.C16_Pure Model.C16_Sort Model.C16_Pure2.\n")
+			b.WriteString("Definition progs : list prog := [\n")
+			for i := lo; i < hi; i++ {
+				if i > lo {
+					b.WriteString(";\n")
+				}
+				b.WriteString(aspgen.CoqProg(its[i].build))
+			}
+			b.WriteString("].\nEval vm_compute in (map (fun p => is_ok (pure2_run FUEL p)) progs).\n")
+			name := fmt.Sprintf("C16RunOk%d", k)
+			path := filepath.Join(out, name+".v")
+			if err := os.WriteFile(path, []byte(b.String()), 0o644); err != nil {
+				errs[k] = err
+				return
+			}
+			defer func() {
+				for _, ext := range []string{".v", ".vo", ".vok", ".vos", ".glob"} {
+					os.Remove(filepath.Join(out, name+ext))
+				}
+				os.Remove(filepath.Join(out, "."+name+".aux"))
+			}()
+			cmd := exec.Command("coqc", "-Q", theories, "PlzV", name+".v")
+			cmd.Dir = out
+			done := make(chan struct{})
+			var o []byte
+			var err error
+			go func() { o, err = cmd.CombinedOutput(); close(done) }()
+			select {
+			case <-done:
+			case <-time.After(20 * time.Minute):
+				cmd.Process.Kill()
+				<-done
+				errs[k] = fmt.Errorf("coqc timed out on shard %d", k)
+				return
+			}
+			if err != nil {
+				errs[k] = fmt.Errorf("coqc failed on shard %d: %v: %s", k, err, firstLine(string(o)))
+				return
+			}
+			text := string(o)
+			if i := strings.Index(text, ": list bool"); i >= 0 {
+				text = text[:i]
+			}
+			flags := boolList.FindAllString(text, -1)
+			if len(flags) != hi-lo {
+				errs[k] = fmt.Errorf("shard %d: %d verdicts for %d programs", k, len(flags), hi-lo)
+				return
+			}
+			for i, f := range flags {
+				res[lo+i] = f == "true"
+			}
+		}(k)
+	}
+	wg.Wait()
+	for _, e := range errs {
+		if e != nil {
+			return nil, e
+		}
+	}
+	return res, nil
 }
 
 // witnessClass: the class a template reports when asp differs from CPython on it exactly as recorded. The witnesses of
